@@ -89,3 +89,13 @@ Theorem C10_original_cursor_empty_nodeset_refuted :
   (exists st kvs cb cbs, iscan_all c10_f12_tree c10_f12_args = Some (st, kvs, cb :: cbs)).
 Proof. split; vm_compute; repeat eexists. Qed.
 Print Assumptions C10_original_cursor_empty_nodeset_refuted.
+
+(** ** Finding F13 (found by a proof attempt): outside the layer that holds the range end the end tuple is only a
+    sentinel, (0xff..ff, 9) left to right; a start key whose slice in such a layer is all 0xff and continues had
+    exactly that tuple, and with an inclusive end the pinned cursor concluded "callback range empty": the border in
+    which keys of the interval land was not reported.  Pinned source: not reported; repaired source: reported. *)
+From Yk Require Import IScanPhantomProofs.
+Theorem C10_original_cursor_ff_slice_refuted :
+  ff_landing_reported true = Some false /\ ff_landing_reported false = Some true.
+Proof. exact iscan_ff_slice_repaired. Qed.
+Print Assumptions C10_original_cursor_ff_slice_refuted.
